@@ -32,7 +32,15 @@ def gen_config(rng, profile="any", tier="quick"):
     n_assets = rng.randrange(1, 6)
     if rng.random() < (0.2 if tier == "thorough" else 0.05):
         n_assets = rng.randrange(6, 11)             # wide universes
-    syms = mk.SYMS[:n_assets]
+    # a whole calendar year, 1 January to 31 December (New Year at both ends of one run: ISO week 1 / week 52-53
+    # of the same calendar year), with a small universe to keep it affordable
+    whole_year = profile in ("C08", "C14", "any") and rng.random() < (0.08 if tier == "thorough" else 0.03)
+    if whole_year:
+        n_assets = rng.randrange(1, 3)
+    syms = list(mk.SYMS[:n_assets])
+    if n_assets >= 2 and rng.random() < 0.12:
+        # tickers that differ only by leading zeros in a digit run (numeric exchange codes): distinct symbols
+        syms[:2] = rng.choice([["7", "007"], ["A1", "A01"], ["0700", "700"]])
     assets = ["EQ:" + s for s in syms]
     if tier == "quick":
         n_bdays = rng.choice([5, 8, 12, 20, 30, 45, 65])
@@ -52,7 +60,11 @@ def gen_config(rng, profile="any", tier="quick"):
                 break
         d1 += 1
     reb = rng.choice(["weekly", "weekly", "daily", "end_of_month", "buy_and_hold"])
-    if rng.random() < 0.25:
+    if whole_year:
+        y_w = rng.randrange(2005, 2024)
+        d0, d1 = cal.epoch_day(y_w, 1, 1), cal.epoch_day(y_w, 12, 31)
+        reb = rng.choice(["weekly", "weekly", "daily"])
+    if rng.random() < 0.25 and not whole_year:
         # calendar coincidences: let the range end on the last business day of a month (often a Friday before a
         # weekend month end), or start on the first
         import calendar as _c
@@ -147,6 +159,8 @@ def gen_config(rng, profile="any", tier="quick"):
     if cfg["universe"]["kind"] == "leaving":
         cfg["universe"]["ret"] = rng.choice(["list", "list", "tuple", "gen"])
     if dynamic and rng.random() < 0.3:
+        cfg["universe"]["decoy"] = True
+    if dynamic and rng.random() < 0.3:
         cfg["universe"]["absent_as_nat"] = True
     if dynamic and rng.random() < 0.25:
         cfg["universe"]["py_datetime"] = True
@@ -180,7 +194,8 @@ def gen_config(rng, profile="any", tier="quick"):
         cfg["leverage"] = rng.choice([3.0, 5.0, 8.0])
         jump_p = rng.choice([0.05, 0.1, 0.2])
     market = mk.gen_market(rng, n_assets, md0, n_market, adjust=cfg["adjust"], faults=faults,
-                           low_priced_p=0.3 if profile == "C08" else 0.15, jump_p=jump_p)
+                           low_priced_p=0.3 if profile == "C08" else 0.15, jump_p=jump_p,
+                           weekend_rows=(profile in ("C07", "any") and rng.random() < 0.25), syms=syms)
     if rng.random() < 0.12 and profile != "C07":
         # a second listing of the first symbol in the same directory, with other prices; it is nobody's data
         base = market["assets"][syms[0]]["rows"]
@@ -607,6 +622,11 @@ def build_session(cfg, dirpath, shared_source=None, shared_inputs=None):
             if u.get("py_datetime") and e > -2000000000:
                 return t_.to_pydatetime()          # a plain tz-aware datetime.datetime
             return t_
+        if u.get("decoy"):
+            # another study earlier in the same process listed the same symbols, none of them with an entry date yet
+            earlier = DynamicUniverse(dict((a, absent) for a in u["entries"]))
+            earlier.get_assets(S)
+            earlier.get_assets(E)
         universe = DynamicUniverse(dict((a, _entry(a, e)) for a, e in u["entries"].items()))
         if u.get("cursor"):
             from qstrader.asset.universe.universe import Universe
